@@ -307,6 +307,27 @@ func checkC03(c *Ctx) {
 	// must bind those claims to the signed block (shared with C02.1 / C02.3)
 	c.importFrom(checkC02, "C03.8", "C02.1", "C02.3")
 
+	// C03.9 what OnValidPropose hands to the aggregator is the certificate of a vote that succeeded: after a refused vote
+	// (already voted in this view) nothing is sent under this replica's name
+	if onValid != nil && voterVote != nil {
+		fo := NewFlow(p, onValid)
+		n := 0
+		for _, ds := range deepSites(fo, func(cc *ssa.CallCommon) bool { return cc.IsInvoke() && cc.Method.Name() == "Aggregate" }, 0) {
+			n++
+			voteKey := ""
+			if na := len(ds.Args); na > 0 && strings.HasSuffix(ds.Args[na-1], "#0") {
+				voteKey = strings.TrimSuffix(ds.Args[na-1], "#0")
+			}
+			ok := strings.HasPrefix(voteKey, shortName(voterVote)+"(") && errNilOf(ds.Facts, is(voteKey+"#1"))
+			c.Check(ok, "C03.9", "OnValidPropose: only a successful vote is aggregated", p.Pos(ds.Site.Pos()),
+				"aggregator.Aggregate(proposal, pc) with pc the result of Vote(block), only under Vote's error == nil",
+				"Aggregate("+join(ds.Args)+") is reachable after a failed Vote, or with a certificate that is not Vote's result")
+		}
+		if n == 0 {
+			c.Unresolved("C03.9", "OnValidPropose", "no Aggregate call")
+		}
+	}
+
 	// C03.7 OnLocalTimeout: a signed timeout implies StopVoting(currentView) before leaving
 	olt := p.Method("protocol/synchronizer", "Synchronizer", "OnLocalTimeout")
 	if olt != nil && stopVoting != nil {
